@@ -169,8 +169,179 @@ def space_used(vm):
     return 'ok'
 
 
+# ------------------------------------------------------------------------------------------------ the same pass over the real SQL
+# The classification of blobs (own / downloaded content / network-seeded), the usage sums and the candidate lists are computed by SQL in
+# SQLiteStorage.  Here the real storage code runs on the real sqlite3 library (in-memory database, real schema; harness/sqlstore.py), the
+# real BlobManager deletes from a model blob directory, and the reference classification comes from the scenario, not from SQL.
+MIB2 = 2 * MB
+
+
+class SBlob:
+    def __init__(self, blob_hash, length, blob_num=0, is_mine=False, added_on=1):
+        self.blob_hash, self.length, self.blob_num, self.is_mine, self.added_on = blob_hash, length, blob_num, is_mine, added_on
+        self.iv = '00' * 16
+
+
+class SDescriptor:
+    def __init__(self, tag, sizes, is_mine, added_on):
+        self.stream_hash = (tag + 'f') * 48
+        self.sd_hash = (tag + '0') * 48
+        self.key = '11' * 16
+        self.stream_name = self.suggested_file_name = 'file-' + tag
+        self.blobs = [SBlob((tag + '%x' % (i + 1)) * 48, size, i, is_mine, added_on + i) for i, size in enumerate(sizes)]
+        self.blobs.append(SBlob(None, 0, len(sizes), is_mine, added_on))            # the empty stream terminator
+        self.sd_blob = SBlob(self.sd_hash, 700 + len(sizes), 0, is_mine, added_on)
+
+
+def sql_world(vm, storage, files):
+    """Builds the scenario through the real storage API; returns hash -> [class, size, finished]."""
+    ref = {}
+    own = SDescriptor('a', [MIB2, 1600000], True, 10)
+    got = SDescriptor('b', [MIB2, 1300000, MIB2], False, 20)
+    unfinished = vm.pick('downloaded_blob_3_still_pending', 2)
+    for d, kind in ((own, 'private'), (got, 'content')):
+        vm.await_(storage.store_stream(d.sd_blob, d))
+        if kind == 'private':
+            vm.await_(storage.save_published_file(d.stream_hash, 'name', '/downloads', 0.0))
+        else:
+            vm.await_(storage.save_downloaded_file(d.stream_hash, 'name', '/downloads', 0.0))
+        for i, b in enumerate([d.sd_blob] + d.blobs[:-1]):
+            done = not (kind == 'content' and i == 3 and unfinished)
+            ref[b.blob_hash] = ['sd-' + kind if i == 0 else kind, b.length, done]
+            if done:
+                files[b.blob_hash] = b.length
+                vm.await_(storage.add_blobs((b.blob_hash, b.length, b.added_on, b.is_mine), finished=True))
+    n_net = (0, 2, 3)[vm.pick('network_blobs', 3)]
+    for i, size in enumerate((MIB2, 1200000, MIB2)[:n_net]):
+        h = ('c%x' % (i + 1)) * 48
+        ref[h] = ['network', size, True]
+        files[h] = size
+        vm.await_(storage.add_blobs((h, size, 30 + i, False), finished=True))
+    return ref
+
+
+def ref_usage_mb(ref, files, network):
+    sums = {'network': 0, 'content': 0, 'private': 0}
+    for h in ref:
+        kind, size, done = ref[h]
+        if done and h in files and kind in sums:
+            sums[kind] += size
+    if network:
+        return sums['network'] // MB
+    return sums['content'] // MB + sums['private'] // MB
+
+
+def start_manager(vm, storage):
+    from harness import C18
+    from lbry.blob.blob_manager import BlobManager
+    manager = BlobManager(C18.LOOP[0], C18.BLOB_DIR, storage, C18.Config())
+    vm.await_(manager.setup())
+    return manager
+
+
+def clean_sql(vm, passes):
+    from harness import C18
+    from harness.sqlstore import new_storage
+    C18.C01_VM[0] = vm
+    C18.LOOP[0] = C18.Loop()
+    files, _ = C18.ENV[0].state()
+    storage = new_storage(C18.LOOP[0])
+    ref = sql_world(vm, storage, files)
+    if vm.pick('blob_directory_lost_and_restored_before', 2):
+        # the blob directory was unavailable at one start (every finished row is downgraded to pending) and back at the next one
+        # (every file found is recorded as finished again by the real start-up reconciliation)
+        saved = dict(files)
+        files.clear()
+        start_manager(vm, storage)
+        files.update(saved)
+    manager = start_manager(vm, storage)
+    content_limit = vm.new_int('content_limit', 0, 12)
+    network_limit = vm.new_int('network_limit', 0, 12)
+    dsm = DiskSpaceManager(Cfg(content_limit, network_limit), storage, manager)
+    removable = {False: [h for h in sorted(ref) if ref[h][0] in ('content', 'sd-content') and ref[h][2]],
+                 True: [h for h in sorted(ref) if ref[h][0] == 'network' and ref[h][2]]}
+    any_deleted = False
+    sufficed = False
+    for p in range(passes):
+        before_files = dict(files)
+        before = {False: ref_usage_mb(ref, files, False), True: ref_usage_mb(ref, files, True)}
+        reported = vm.await_(dsm.get_space_used_mb(cached=False))
+        if reported['network_storage'] != before[True] or reported['content_storage'] + reported['private_storage'] != before[False]:
+            return 'VIOLATION: the usage computed by the storage layer differs from the blobs of each class that are stored'
+        try:
+            vm.await_(dsm.clean())
+        except Exception as e:
+            return 'VIOLATION: cleanup pass raised %s' % type(e).__name__
+        deleted = [h for h in before_files if h not in files]
+        rows = {}
+        for h, status, mine in storage.db.conn.execute('select blob_hash, status, is_mine from blob').fetchall():
+            rows[h] = (status, mine)
+        for h in ref:
+            kind, size, done = ref[h]
+            if kind in ('private', 'sd-private'):
+                if h in deleted or h not in rows:
+                    return 'VIOLATION: deleted a blob the user published'
+                if rows[h] != ('finished', 1):
+                    return 'VIOLATION: a published blob is no longer recorded as the user\'s own finished blob'
+        for h in deleted:
+            if h in rows:
+                return 'VIOLATION: a deleted blob is still listed in the database'
+        for cls in (False, True):
+            limit = network_limit if cls else content_limit
+            mine = [h for h in deleted if (ref[h][0] == 'network') == cls]
+            for h in mine:
+                if h not in removable[cls]:
+                    return 'VIOLATION: deleted a blob that is not a removable blob of the class'
+            unlimited = (not cls) and limit == 0
+            tag = ' (network class' if cls else ' (content class'
+            if unlimited and mine:
+                return 'VIOLATION: deleted although content storage is unlimited'
+            if before[cls] <= limit and mine:
+                return 'VIOLATION: deleted although usage is within the limit' + tag + ', pass %d)' % (p + 1)
+            if not unlimited and before[cls] > limit:
+                after = ref_usage_mb(ref, files, cls)
+                left = [h for h in removable[cls] if h in files and not ref[h][0].startswith('sd-')]
+                if after > limit and left:
+                    return 'VIOLATION: stopped while still over the limit although removable blobs remained' + tag + ', pass %d)' % (p + 1)
+                freed = [ref[h][1] // MB for h in mine]
+                if freed and before[cls] - (sum(freed) - min(freed)) <= limit and min(freed) > 0 and len([f for f in freed if f > 0]) > 1 \
+                        and before[cls] - (sum(freed) - max(freed)) <= limit:
+                    return 'VIOLATION: deleted more than the excess plus one blob of whole-megabyte accounting' + tag + ', pass %d)' % (p + 1)
+        if p > 0 and deleted and sufficed:
+            return 'VIOLATION: a second pass deleted again although the first pass had brought usage within the limits'
+        sufficed = True
+        for cls in (False, True):
+            limit = network_limit if cls else content_limit
+            if (cls or limit != 0) and ref_usage_mb(ref, files, cls) > limit:
+                sufficed = False
+        if deleted:
+            any_deleted = True
+    return 'ok-deleted' if any_deleted else 'ok-nothing'
+
+
+def sym_setup(vm, job):
+    if job.get('family') == 'sql':
+        from harness import C18
+        C18.sym_setup(vm, job)
+
+
+def native_setup(nvm, job):
+    if job.get('family') == 'sql':
+        from harness import C18
+        return C18.native_setup(nvm, job)
+    return None
+
+
 def jobs(tier):
     out = []
+    for passes in ((1,) if tier == 'quick' else (1, 2)):
+        out.append(dict(name=f'clean-real-sql-{passes}-passes', family='sql', fn='clean_sql', args=(passes,), loop_bound=400, max_depth=80,
+                        cost=5000 * passes,
+                        bounds=dict(scenario='a published stream (2 blobs + descriptor, own), a downloaded stream (3 blobs + descriptor, the third '
+                                    'optionally still pending), 0 / 2 / 3 network-seeded blobs, sizes 1.2-2 MiB; optionally a start with the blob '
+                                    'directory missing followed by one with it restored', limits='0..12 MB symbolic, both classes',
+                                    passes=passes, sql='executed by the real sqlite3 library on the real schema'),
+                        must_reach=('ok-nothing', 'ok-deleted')))
     ks = [(0, 2), (1, 2), (2, 2), (3, 2)] if tier == 'quick' else [(0, 2), (1, 2), (2, 2), (3, 2), (4, 2), (5, 2), (6, 1), (3, 3)]
     for k, passes in ks:
         out.append(dict(name=f'clean-{k}-blobs-{passes}-passes', family='clean', fn='run', args=(k, passes), loop_bound=50,
